@@ -1,10 +1,11 @@
 (* Property C01: the handlers that range over Go maps (coq/FSM/Model.v) store the same rows and
-   return the same result-as-a-set whatever order the environment picks; the raw result list of
-   AssignManualServiceVIPs and the error texts that name "the first" offending item do depend on it. *)
+   return the same result and the same error text whatever order the environment picks.  (Before the
+   fixes 9d6116b, 7ea9e44, 281c379 the raw result list of AssignManualServiceVIPs and two error texts did
+   depend on it; the models then carried refutations.) *)
 From stdpp Require Import gmap strings sorting.
 From RecordUpdate Require Import RecordSet.
 From Coq Require Import NArith.
-From Verif Require Import Store.Model FSM.Model.
+From Verif Require Import Store.Model FSM.Model FSM.Sorting.
 Import RecordSetNotations.
 Local Open Scope N_scope.
 
@@ -116,51 +117,28 @@ Proof.
 Qed.
 
 (* ---------- error texts ---------- *)
-(* whether the metadata is rejected does not depend on the order ... *)
-Theorem validate_meta_verdict_order bad l1 l2 :
-  Permutation l1 l2 -> (is_Some (validate_meta bad l1) <-> is_Some (validate_meta bad l2)).
+(* the pair named by validateMetadata does not depend on the order in which the keys were collected *)
+Theorem validate_meta_order e1 e2 bad meta : validate_meta e1 bad meta = validate_meta e2 bad meta.
 Proof.
-  intros Hp. unfold validate_meta.
-  assert (Hx : forall l, is_Some (head (filter (fun kv => bad kv = true) l)) <-> exists x, x ∈ l /\ bad x = true).
-  { intros l. split.
-    - intros [x Hx]. apply head_Some_elem_of in Hx. apply elem_of_list_filter in Hx as [Hb Hin]. eauto.
-    - intros (x & Hin & Hb).
-      destruct (filter (fun kv => bad kv = true) l) as [|y l'] eqn:Ef; [|eexists; reflexivity].
-      assert (Hi : x ∈ filter (fun kv => bad kv = true) l) by (apply elem_of_list_filter; split; assumption).
-      rewrite Ef in Hi. inversion Hi. }
-  rewrite !Hx. split; intros (x & Hin & Hb); exists x; (split; [|exact Hb]); [rewrite <- Hp|rewrite Hp]; exact Hin.
+  unfold validate_meta. rewrite (ssort_order (order e1 (elements (dom meta))) (order e2 (elements (dom meta)))); [reflexivity|].
+  rewrite !order_perm. reflexivity.
 Qed.
 
-(* ... but the pair the message names does *)
-Theorem validate_meta_text_order_refuted :
-  exists bad l1 l2, Permutation l1 l2 /\ validate_meta bad l1 ≠ validate_meta bad l2.
-Proof.
-  exists (fun _ => true), [("bad key!", "x"); ("also bad?", "y")], [("also bad?", "y"); ("bad key!", "x")].
-  split; [apply perm_swap|]. vm_compute. discriminate.
-Qed.
+Example validate_meta_example :
+  validate_meta env_rev (fun _ => true) (<["bad key!" := "x"]> (<["also bad?" := "y"]> ∅)) = Some ("also bad?", "y") /\
+  validate_meta env_id (fun _ => true) (<["bad key!" := "x"]> (<["also bad?" := "y"]> ∅)) = Some ("also bad?", "y").
+Proof. split; vm_compute; reflexivity. Qed.
 
-Theorem missing_providers_set_order known r1 r2 :
-  Permutation r1 r2 -> Permutation (missing_providers known r1) (missing_providers known r2).
-Proof. intros Hp. unfold missing_providers. rewrite Hp. reflexivity. Qed.
+(* the lines reported for missing JWT providers come in one order *)
+Theorem missing_providers_order known r1 r2 :
+  Permutation r1 r2 -> missing_providers known r1 = missing_providers known r2.
+Proof. intros Hp. unfold missing_providers. rewrite (ssort_order r1 r2 Hp). reflexivity. Qed.
 
-Theorem missing_providers_text_order_refuted :
-  exists known r1 r2, Permutation r1 r2 /\ missing_providers known r1 ≠ missing_providers known r2.
-Proof.
-  exists ∅, ["okta"; "auth0"], ["auth0"; "okta"]. split; [apply perm_swap|].
-  vm_compute. discriminate.
-Qed.
+Example missing_providers_example :
+  missing_providers ∅ ["okta"; "auth0"] = ["auth0"; "okta"] /\ missing_providers ∅ ["auth0"; "okta"] = ["auth0"; "okta"].
+Proof. split; vm_compute; reflexivity. Qed.
 
 (* ---------- manual virtual IPs ---------- *)
-Lemma sinsert_perm x l : Permutation (sinsert x l) (x :: l).
-Proof.
-  induction l as [|y l IH]; cbn; [reflexivity|].
-  destruct (String.leb x y); [reflexivity|]. rewrite IH. apply perm_swap.
-Qed.
-Lemma ssort_perm l : Permutation (ssort l) l.
-Proof. induction l as [|x l IH]; cbn; [reflexivity|]. rewrite sinsert_perm, IH. reflexivity. Qed.
-Lemma elem_of_ssort x l : x ∈ ssort l <-> x ∈ l.
-Proof. rewrite ssort_perm. reflexivity. Qed.
-
 (* a manual IP belongs to at most one service (what AssignManualServiceVIPs is there to ensure) *)
 Definition Uniq (m : gmap string vip) : Prop :=
   forall n1 n2 r1 r2 ip, m !! n1 = Some r1 -> m !! n2 = Some r2 -> ip ∈ v_manual r1 -> ip ∈ v_manual r2 -> n1 = n2.
@@ -431,14 +409,10 @@ Section Assign.
   Qed.
 End Assign.
 
-Definition vres_equiv (r1 r2 : vres) : Prop :=
-  r_found r1 = r_found r2 /\ Permutation (r_unassigned r1) (r_unassigned r2).
-
-(* The stored rows do not depend on the iteration orders; the result is the same set. *)
+(* The stored rows and the result do not depend on the iteration orders. *)
 Theorem assign_manual_order e1 e2 e1' e2' idx svc ips s :
   Uniq (vips s) ->
-  (assign_manual e1 e2 idx svc ips s).1 = (assign_manual e1' e2' idx svc ips s).1 /\
-  vres_equiv (assign_manual e1 e2 idx svc ips s).2 (assign_manual e1' e2' idx svc ips s).2.
+  assign_manual e1 e2 idx svc ips s = assign_manual e1' e2' idx svc ips s.
 Proof.
   intros Hu. unfold assign_manual.
   assert (HQ : forall e, Forall (SQ (dedup ips)) (order e (dedup ips))).
@@ -448,8 +422,8 @@ Proof.
   pose proof (fold_order idx svc (dedup ips) _ _ (s, []) Hp (conj Hu (NoDup_nil_2)) (HQ e1)) as [Hs Hm].
   destruct (foldl _ (s, []) (order e1 (dedup ips))) as [s1 m1], (foldl _ (s, []) (order e1' (dedup ips))) as [s1' m1'].
   cbn in Hs, Hm. subst s1'.
-  destruct (vips s1 !! svc) as [row|]; cbn; [|split; [reflexivity|split; reflexivity]].
-  split; [reflexivity|]. split; [reflexivity|]. cbn. rewrite !order_perm. exact Hm.
+  destruct (vips s1 !! svc) as [row|]; cbn; [|reflexivity].
+  f_equal. f_equal. apply ssort_order. rewrite !order_perm. exact Hm.
 Qed.
 
 (* uniqueness is kept, so the theorem applies along every run *)
@@ -495,59 +469,31 @@ Qed.
 Lemma Uniq_empty : Uniq (vips vst0).
 Proof. intros n1 n2 r1 r2 ip H1. cbn in H1. rewrite lookup_empty in H1. discriminate. Qed.
 
-Definition ores_equiv (a b : option vres) : Prop :=
-  match a, b with
-  | Some x, Some y => vres_equiv x y
-  | None, None => True
-  | _, _ => False
-  end.
-
 (* two replicas that run the same commands under arbitrary, different environments *)
 Definition same_cmd (a b : Env * Env * N * vcmd) : Prop := a.1.2 = b.1.2 /\ a.2 = b.2.
 
 Theorem vrun_order log1 log2 : Forall2 same_cmd log1 log2 -> forall s, Uniq (vips s) ->
-  (vrun log1 s).1 = (vrun log2 s).1 /\ Forall2 ores_equiv (vrun log1 s).2 (vrun log2 s).2.
+  vrun log1 s = vrun log2 s.
 Proof.
-  induction 1 as [|[[[e1 e2] idx] c] [[[e1' e2'] idx'] c'] l1 l2 [Hi Hc] Hl IH]; intros s Hu; cbn.
-  - split; [reflexivity|constructor].
-  - cbn in Hi, Hc. subst idx' c'.
-    assert (Hstep : (vapply e1 e2 idx c s).1 = (vapply e1' e2' idx c s).1 /\
-                    ores_equiv (vapply e1 e2 idx c s).2 (vapply e1' e2' idx c s).2).
-    { destruct c as [svc ips|svc ip|svc]; cbn.
-      - pose proof (assign_manual_order e1 e2 e1' e2' idx svc ips s Hu) as [Hs Hr].
-        destruct (assign_manual e1 e2 idx svc ips s), (assign_manual e1' e2' idx svc ips s). split; assumption.
-      - destruct (vips s !! svc); split; try reflexivity; exact I.
-      - destruct (vips s !! svc); split; try reflexivity; exact I. }
-    pose proof (vapply_Uniq e1 e2 idx c s Hu) as Hu'.
-    destruct (vapply e1 e2 idx c s) as [s1 r1], (vapply e1' e2' idx c s) as [s1' r1']. cbn in Hstep, Hu'.
-    destruct Hstep as [<- Hr]. specialize (IH s1 Hu').
-    destruct (vrun l1 s1) as [x1 y1], (vrun l2 s1) as [x2 y2]. cbn in *. destruct IH as [-> Hy].
-    split; [reflexivity|constructor; assumption].
+  induction 1 as [|[[[e1 e2] idx] c] [[[e1' e2'] idx'] c'] l1 l2 [Hi Hc] Hl IH]; intros s Hu; cbn; [reflexivity|].
+  cbn in Hi, Hc. subst idx' c'.
+  assert (Hstep : vapply e1 e2 idx c s = vapply e1' e2' idx c s).
+  { destruct c as [svc ips|svc ip|svc]; cbn; [|reflexivity|reflexivity].
+    rewrite (assign_manual_order e1 e2 e1' e2' idx svc ips s Hu). reflexivity. }
+  pose proof (vapply_Uniq e1 e2 idx c s Hu) as Hu'.
+  rewrite <- Hstep. destruct (vapply e1 e2 idx c s) as [s1 r1]. cbn in Hu'.
+  rewrite (IH s1 Hu'). reflexivity.
 Qed.
 
-(* The raw list, however, is returned in map order: two replicas may return different results for
-   the same committed command (maps.SliceOfKeys in AssignManualServiceVIPs). *)
-Definition refute_state : vst :=
+(* The case that used to differ between replicas (two services lose an address each): both iteration
+   orders now return the same list. *)
+Definition ex_vstate : vst :=
   VSt (<["web" := Vip 1 ["240.0.0.1"] 1 1]> (<["db" := Vip 2 ["240.0.0.2"] 2 2]> (<["cache" := Vip 3 [] 3 3]> ∅))) 3.
 
-Theorem assign_manual_raw_result_order_refuted :
-  exists e1 e2 e1' e2' idx svc ips s,
-    Uniq (vips s) /\ (assign_manual e1 e2 idx svc ips s).2 ≠ (assign_manual e1' e2' idx svc ips s).2.
-Proof.
-  exists env_id, env_id, env_id, env_rev, 9, "cache", ["240.0.0.1"; "240.0.0.2"], refute_state.
-  split.
-  -
-    intros n1 n2 r1 r2 ip H1 H2 Hi1 Hi2. unfold refute_state in *; cbn in *.
-    repeat match goal with
-           | H : <[?k := _]> _ !! ?n = Some _ |- _ =>
-             destruct (decide (n = k)) as [->|?];
-             [rewrite lookup_insert in H; injection H as <-|rewrite lookup_insert_ne in H by congruence]
-           | H : ∅ !! _ = Some _ |- _ => rewrite lookup_empty in H; discriminate
-           end; cbn in *; try reflexivity;
-      repeat match goal with H : _ ∈ [] |- _ => inversion H | H : _ ∈ [_] |- _ => apply elem_of_list_singleton in H end;
-      congruence.
-  - vm_compute. discriminate.
-Qed.
+Example assign_manual_example :
+  (assign_manual env_id env_id 9 "cache" ["240.0.0.1"; "240.0.0.2"] ex_vstate).2 = VRes true ["db"; "web"] /\
+  (assign_manual env_rev env_rev 9 "cache" ["240.0.0.1"; "240.0.0.2"] ex_vstate).2 = VRes true ["db"; "web"].
+Proof. split; vm_compute; reflexivity. Qed.
 
 Example usage_deltas_example :
   write_usage_deltas 7 [("nodes", 1%Z); ("services", (-3)%Z)] (<["services" := (2, 4)]> ∅) =
